@@ -121,7 +121,7 @@ bool Dot3::matches_response(const uint8_t* ptr, uint32_t total_sz) const {
     }
     const dot3_header* eth_ptr = (const dot3_header*)ptr;
     if (address_type(header_.src_mac) == address_type(eth_ptr->dst_mac)) {
-        if (address_type(header_.src_mac) == address_type(eth_ptr->dst_mac) || 
+        if (address_type(header_.dst_mac) == address_type(eth_ptr->src_mac) || 
             dst_addr() == BROADCAST) {
             ptr += sizeof(dot3_header);
             total_sz -= sizeof(dot3_header);
